@@ -42,6 +42,7 @@ class ECB(Mode):
         super().__init__(cipher,pad)
     # encryption mode
     def enc(self,M):
+        self.pad.reset()
         C = []
         for b in self.iterblocks(M):
             C.append(self._cipher.enc(b))
@@ -95,6 +96,7 @@ class CBC(Mode):
         self.IV = IV
     # encryption mode
     def enc(self,M):
+        self.pad.reset()
         C = [self.IV]
         for b in self.iterblocks(M):
             x = self.xorstr(b,C[-1])
